@@ -73,7 +73,7 @@ Definition qev (e : event) : bool :=
   match e with Call _ | RegW _ | Fuel | Deadlock | Obs (WCb SiRegW) _ _ _ _ => true | _ => false end.
 (* a connected-observation can only be made if the state was connected to begin with *)
 Definition obs_sound (conn0 : bool) (e : event) : Prop :=
-  match e with Obs _ conn _ _ _ => conn = true -> conn0 = true | _ => True end.
+  match e with Obs _ conn hs _ _ => conn = true -> conn0 = true /\ hs = true | _ => True end.
 Definition has_call_disc (evs : list event) : bool :=
   existsb (fun e => match e with Call CDisconnect => true | _ => false end) evs.
 
@@ -89,7 +89,8 @@ Record quiet_rel (s s' : st) : Prop := mkQuiet {
            q_unregw (scr s') = q_unregw (scr s) /\ q_publish (scr s') = q_publish (scr s) /\
            q_discopen (scr s') = q_discopen (scr s) /\
            (queue_noreconn (q_regw (scr s)) = true -> queue_noreconn (q_regw (scr s')) = true);
-  qr_outq : exists added, outq s' = outq s ++ added /\ nocon added = true /\ (sock s = None -> added = []);
+  qr_outq : exists added, outq s' = outq s ++ added /\ nocon added = true /\ (sock s = None -> added = []) /\
+            (has_disc added = true -> cs s' = CsDisconnecting);
   qr_regw : regw s = true -> regw s' = true;
   qr_regw_none : sock s = None -> regw s' = regw s;
   qr_tr : exists evs, tr s' = evs ++ tr s /\ Forall (fun e => qev e = true) evs /\
@@ -103,7 +104,7 @@ Record quiet_rel (s s' : st) : Prop := mkQuiet {
 Lemma quiet_refl s : quiet_rel s s.
 Proof.
   constructor; try reflexivity; try tauto.
-  - exists []. rewrite app_nil_r. repeat split; auto.
+  - exists []. rewrite app_nil_r. repeat split; auto; try discriminate.
   - exists []. repeat split; constructor.
 Qed.
 
@@ -117,9 +118,14 @@ Proof.
   constructor; try congruence.
   - destruct A7 as (a1 & a2 & a3 & a4 & a5 & a6 & a7 & a8). destruct B7 as (c1 & c2 & c3 & c4 & c5 & c6 & c7 & c8).
     repeat split; try congruence. auto.
-  - destruct A8 as (x & X1 & X2 & X3). destruct B8 as (y & Y1 & Y2 & Y3).
+  - destruct A8 as (x & X1 & X2 & X3 & X4). destruct B8 as (y & Y1 & Y2 & Y3 & Y4).
     exists (x ++ y). rewrite Y1, X1, app_assoc, nocon_app, X2, Y2. repeat split.
-    intros Hs. rewrite X3 by exact Hs. rewrite Y3; [reflexivity|congruence].
+    + intros Hs. rewrite X3 by exact Hs. rewrite Y3; [reflexivity|congruence].
+    + rewrite has_disc_app. intros H. apply orb_true_iff in H as [H|H]; [|exact (Y4 H)].
+      specialize (X4 H). destruct B11 as (ev & _ & _ & _ & E).
+      assert (Hs1 : sock s1 <> None). { intros Z0. rewrite (X3 Z0) in H. discriminate. }
+      destruct (has_call_disc ev); [|congruence].
+      rewrite E, A1. destruct (sock s1); [reflexivity|congruence].
   - auto.
   - intros Hs. rewrite B10, A10; congruence.
   - destruct A11 as (x & X1 & X2 & X3 & X4). destruct B11 as (y & Y1 & Y2 & Y3 & Y4).
@@ -127,10 +133,10 @@ Proof.
     split.
     + apply Forall_app. split; [|exact X3].
       eapply Forall_impl; [|exact Y3]. intros e. unfold obs_sound. destruct e; auto.
-      intros H Hc. specialize (H Hc).
+      intros H Hc. destruct (H Hc) as [H1 H2]. split; [|exact H2].
       (* connected in s2 -> connected in s1 *)
-      destruct (has_call_disc x); [|unfold is_connected in *; rewrite X4 in H; exact H].
-      rewrite (is_connected_disc s2 (sock s1) X4) in H. discriminate.
+      destruct (has_call_disc x); [|unfold is_connected in *; rewrite X4 in H1; exact H1].
+      rewrite (is_connected_disc s2 (sock s1) X4) in H1. discriminate.
     + unfold has_call_disc in *. rewrite existsb_app.
       destruct (existsb _ y) eqn:Ey; cbn [orb].
       * rewrite Y4, A1. reflexivity.
@@ -144,7 +150,7 @@ Lemma quiet_emit e s : qev e = true -> obs_sound (is_connected s) e ->
   (match e with Call CDisconnect => False | _ => True end) -> quiet_rel s (emit e s).
 Proof.
   intros He Ho Hd. constructor; ssimpl; try reflexivity; try tauto; try (repeat split; auto; fail).
-  - exists []. rewrite app_nil_r. repeat split; auto.
+  - exists []. rewrite app_nil_r. repeat split; auto; try discriminate.
   - exists [e]. split; [reflexivity|]. split; [repeat constructor; exact He|]. split; [repeat constructor; exact Ho|].
     unfold has_call_disc. cbn [existsb orb]. destruct e as [| | | | | | | | | |x| | | | |]; try reflexivity.
     destruct x; try reflexivity. destruct Hd.
@@ -156,7 +162,7 @@ Lemma quiet_frame s s' :
   (regw s = true -> regw s' = true) -> (sock s = None -> regw s' = regw s) -> quiet_rel s s'.
 Proof.
   intros. constructor; try assumption; try (rewrite H7; repeat split; auto; fail).
-  - exists []. rewrite app_nil_r. repeat split; auto.
+  - exists []. rewrite app_nil_r. repeat split; auto; try discriminate.
   - exists []. cbn. repeat split; auto; constructor.
 Qed.
 
@@ -184,7 +190,7 @@ Proof.
   eapply quiet_trans; [exact Q1|].
   assert (Q2 : quiet_rel (set_regw true s) (obs (WCb SiRegW) (emit (RegW id) (set_regw true s)))).
   { eapply quiet_trans; [apply (quiet_emit (RegW id)); [reflexivity|exact I|exact I]|].
-    unfold obs. apply quiet_emit; [reflexivity| |exact I]. cbn. auto. }
+    unfold obs. apply quiet_emit; [reflexivity| |exact I]. cbn. unfold has_sock. ssimpl. rewrite Es. auto. }
   eapply quiet_trans; [exact Q2|].
   set (s2 := obs (WCb SiRegW) (emit (RegW id) (set_regw true s))).
   assert (Hrq2 : queue_noreconn (q_regw (scr s2)) = true) by exact Hrq.
@@ -196,7 +202,7 @@ Proof.
   { constructor; try reflexivity; try tauto;
       try (unfold s3; ssimpl; cbn [q_connect q_disconnect q_open q_close q_regw q_unregw q_publish q_discopen];
            repeat split; auto; fail).
-    - exists []. rewrite app_nil_r. repeat split; auto.
+    - exists []. rewrite app_nil_r. repeat split; auto; try discriminate.
     - exists []. cbn. repeat split; auto; constructor. }
   eapply quiet_trans; [exact Q3|].
   destruct sc as [|a sc]; [apply quiet_refl|].
@@ -211,32 +217,34 @@ Proof.
 Qed.
 
 Lemma packet_queue_quiet k s : NW c s -> queue_noreconn (q_regw (scr s)) = true ->
-  sock s <> None -> is_connect k = false ->
+  sock s <> None -> is_connect k = false -> (is_disconnect k = true -> cs s = CsDisconnecting) ->
   quiet_rel s (fst (packet_queue c nested k s)).
 Proof.
-  intros Hnw Hrq Hs Hk. unfold packet_queue.
+  intros Hnw Hrq Hs Hk Hkd. unfold packet_queue.
   set (s1 := set_outq (outq s ++ [mkQ k false]) s).
   assert (E : negb (c_ext c) && negb (incb s1) = false).
   { destruct Hnw as [A|A]; [rewrite A; reflexivity|]. unfold s1. ssimpl. rewrite A. apply andb_false_r. }
   rewrite E. cbn [fst].
   assert (Q1 : quiet_rel s s1).
   { constructor; try reflexivity; try tauto; try (repeat split; auto; fail).
-    - exists [mkQ k false]. split; [reflexivity|]. split; [cbn; rewrite Hk; reflexivity|]. intros X. contradiction.
+    - exists [mkQ k false]. split; [reflexivity|]. split; [cbn; rewrite Hk; reflexivity|]. split; [intros X; contradiction|].
+      cbn. rewrite orb_false_r. exact Hkd.
     - exists []. cbn. repeat split; auto; constructor. }
   eapply quiet_trans; [exact Q1|]. apply call_regw_quiet; [|exact Hrq].
   destruct Hnw as [A|A]; [left; exact A|right; exact A].
 Qed.
 
 Lemma api_send_quiet ck k s : NW c s -> queue_noreconn (q_regw (scr s)) = true ->
-  is_connect k = false -> (ck = CPublish \/ ck = CSubscribe) ->
+  is_connect k = false -> is_disconnect k = false -> (ck = CPublish \/ ck = CSubscribe) ->
   quiet_rel s (fst (api_send c nested ck k s)).
 Proof.
-  intros Hnw Hrq Hk Hck. unfold api_send. ssimpl.
+  intros Hnw Hrq Hk Hkd Hck. unfold api_send. ssimpl.
   assert (Q1 : quiet_rel s (emit (Call ck) s)).
   { apply quiet_emit; [reflexivity|exact I|destruct Hck as [-> | ->]; exact I]. }
   destruct (sock s) eqn:Es; cbn [fst]; [|exact Q1].
   eapply quiet_trans; [exact Q1|]. apply packet_queue_quiet; ssimpl; try assumption.
   all: try (rewrite Es; discriminate); try (destruct Hnw as [A|A]; [left|right]; exact A).
+  rewrite Hkd. discriminate.
 Qed.
 
 Lemma api_disconnect_quiet s : NW c s -> queue_noreconn (q_regw (scr s)) = true ->
@@ -246,13 +254,13 @@ Proof.
   destruct (sock s) as [id|] eqn:Es; cbn [fst].
   - assert (Q1 : quiet_rel s (set_cs CsDisconnecting (emit (Call CDisconnect) s))).
     { constructor; ssimpl; try reflexivity; try tauto; try (repeat split; auto; fail).
-      - exists []. rewrite app_nil_r. repeat split; auto.
+      - exists []. rewrite app_nil_r. repeat split; auto; try discriminate.
       - exists [Call CDisconnect]. split; [reflexivity|]. split; [repeat constructor|]. split; [repeat constructor|].
         cbn. rewrite Es. reflexivity. }
     eapply quiet_trans; [exact Q1|]. apply packet_queue_quiet; ssimpl; try assumption; try reflexivity.
     all: try (rewrite Es; discriminate); try (destruct Hnw as [A|A]; [left|right]; exact A).
   - constructor; ssimpl; try reflexivity; try tauto; try (repeat split; auto; fail).
-    + exists []. rewrite app_nil_r. repeat split; auto.
+    + exists []. rewrite app_nil_r. repeat split; auto; try discriminate.
     + exists [Call CDisconnect]. split; [reflexivity|]. split; [repeat constructor|]. split; [repeat constructor|].
       cbn. rewrite Es. reflexivity.
 Qed.
@@ -442,15 +450,13 @@ Record Vc (id : Z) (s : st) (k : k10) : Prop := mkVc {
   c_cur2 : k2_cur (b2 k) = Some id;
   c_cs : cs s = CsDisconnecting;
   c_owed : k2_owed (b2 k) = None;
-  c_credit : k2_credit (b2 k) = Some id;
-  c_incb : incb s = true
+  c_credit : k2_credit (b2 k) = Some id
 }.
 
 Lemma Vc_enter id p q' s k : sock s = Some id -> outq s = p :: q' -> is_disconnect (qk p) = true -> V true s k ->
-  incb s = false ->
-  Vc id (set_incb true (set_outq q' s)) (k10_ev (k10_ev k (Tx id (qk p))) (CbDisconnect 0 false)).
+  Vc id (set_outq q' s) (k10_ev (k10_ev k (Tx id (qk p))) (CbDisconnect 0 false)).
 Proof.
-  intros Hs Hq Hd HV _; destruct HV as [ok1 ok2 ok3 cur1 cur2 cur3 conn owed credit disc qdisc wire new].
+  intros Hs Hq Hd HV; destruct HV as [ok1 ok2 ok3 cur1 cur2 cur3 conn owed credit disc qdisc wire new].
   assert (Hcs : cs s = CsDisconnecting).
   { apply qdisc; [rewrite Hq; cbn; rewrite Hd; reflexivity|congruence]. }
   pose proof (wire eq_refl ltac:(congruence)) as W. rewrite Hq in W. unfold wire_okb in W.
@@ -468,7 +474,7 @@ Qed.
 (* reconnect()-free nested calls leave the window intact *)
 Lemma Vc_quiet id s s' k0 : quiet_rel s s' -> Vc id s (KS k10_ev k0 s) -> Vc id s' (KS k10_ev k0 s').
 Proof.
-  intros Q HV; destruct HV as [cok1 cok2 cok3 csock ccur1 ccur2 ccs cowed ccredit cincb].
+  intros Q HV; destruct HV as [cok1 cok2 cok3 csock ccur1 ccur2 ccs cowed ccredit].
   destruct (qr_tr _ _ Q) as (evs & Ht & Hq & Ho & Hc).
   assert (Hconn : is_connected s = false) by (unfold is_connected; rewrite ccs; reflexivity).
   (* fold the quiet events over the checker state *)
@@ -484,7 +490,7 @@ Proof.
     destruct e as [| | | | | | | | | |x| | | | |x conn ? ? ?]; try discriminate E1; k10s; try (repeat split; assumption).
     - destruct x; k10s; try (repeat split; assumption). rewrite A5. k10s. repeat split; assumption.
     - destruct x as [|si]; [discriminate E1|]. destruct si; try discriminate E1. cbn [teardown_site k1_ev].
-      cbn in E2. destruct conn; [specialize (E2 eq_refl); discriminate|].
+      cbn in E2. destruct conn; [destruct (E2 eq_refl); discriminate|].
       cbn [negb orb]. rewrite andb_true_r. destruct (b1 k') as [a b c0]. cbn in *. repeat split; try assumption.
       }
   unfold KS in *. rewrite Ht, fold_right_app.
@@ -492,14 +498,72 @@ Proof.
   destruct (G evs Hq Ho _ cowed) as (A1 & A3 & A2 & A4 & A5 & A6).
   assert (Hcs' : cs s' = CsDisconnecting).
   { destruct (has_call_disc evs); rewrite Hc; [rewrite csock; reflexivity|exact ccs]. }
-  constructor; rewrite ?A1, ?A3, ?A2, ?A4, ?A5, ?A6, ?(qr_sock _ _ Q), ?(qr_incb _ _ Q); try assumption; try reflexivity.
+  constructor; rewrite ?A1, ?A3, ?A2, ?A4, ?A5, ?A6, ?(qr_sock _ _ Q); try assumption; try reflexivity.
 Qed.
 
 (* the close that ends the window *)
 Lemma Vc_end id s k s' : Vc id s k -> sock s' = None -> is_connected s' = false ->
   V true s' (k10_ev k (ConnEnd id RDiscWritten)).
 Proof.
-  intros HV Hs' Hc; destruct HV as [cok1 cok2 cok3 csock ccur1 ccur2 ccs cowed ccredit cincb]. apply V_nosock; k10s; rewrite ?ccredit; k10s; try assumption; try reflexivity.
+  intros HV Hs' Hc; destruct HV as [cok1 cok2 cok3 csock ccur1 ccur2 ccs cowed ccredit]. apply V_nosock; k10s; rewrite ?ccredit; k10s; try assumption; try reflexivity.
   - rewrite cok2, Z.eqb_refl. reflexivity.
+  - intros; discriminate.
+Qed.
+
+(* reconnect()-free nested calls preserve the invariant; [pre]: packets _packet_write holds at that moment *)
+Lemma V_quiet pre s s' k0 : quiet_rel s s' ->
+  V true (set_outq (pre ++ outq s) s) (KS k10_ev k0 s) ->
+  V true (set_outq (pre ++ outq s') s') (KS k10_ev k0 s').
+Proof.
+  intros Q HV; destruct HV as [ok1 ok2 ok3 cur1 cur2 cur3 conn owed credit disc qdisc wire new]. ssimpl.
+  destruct (qr_tr _ _ Q) as (evs & Ht & Hq & Ho & Hc).
+  destruct (qr_outq _ _ Q) as (added & Ha & Hnc & Hnone & Hdisc).
+  pose proof (qr_sock _ _ Q) as Hsock.
+  assert (G : forall l, Forall (fun e => qev e = true) l -> Forall (obs_sound (is_connected s)) l ->
+            forall k, k2_owed (b2 k) = None -> k1_ok (b1 k) = true ->
+            (is_connected s = true -> k1_est (b1 k) = true) ->
+            let k' := fold_right (fun e k => k10_ev k e) k l in
+            k1_cur (b1 k') = k1_cur (b1 k) /\ k1_est (b1 k') = k1_est (b1 k) /\ k1_ok (b1 k') = true /\
+            b3 k' = b3 k /\ k2_ok (b2 k') = k2_ok (b2 k) /\ k2_cur (b2 k') = k2_cur (b2 k) /\
+            k2_owed (b2 k') = None /\ k2_credit (b2 k') = k2_credit (b2 k) /\
+            k2_disc (b2 k') = k2_disc (b2 k) || has_call_disc l).
+  { induction l as [|e l IH]; intros F1 F2 k Hk Hok Hest; cbn [fold_right].
+    - cbn. rewrite orb_false_r. repeat split; assumption.
+    - inversion F1 as [|? ? E1 F1']; subst. inversion F2 as [|? ? E2 F2']; subst.
+      destruct (IH F1' F2' k Hk Hok Hest) as (A1 & A2 & A3 & A4 & A5 & A6 & A7 & A8 & A9).
+      set (k' := fold_right (fun e k => k10_ev k e) k l) in *.
+      unfold has_call_disc in *. cbn [existsb].
+      destruct e as [| | | | | | | | | |x| | | | |x cn hs ? ?]; try discriminate E1; k10s; cbn [orb];
+        try (repeat split; assumption).
+      + destruct x; k10s; cbn [orb]; try (repeat split; assumption).
+        rewrite A7. k10s. repeat split; try assumption. rewrite orb_true_r. reflexivity.
+      + destruct x as [|si]; [discriminate E1|]. destruct si; try discriminate E1. cbn [teardown_site k1_ev k1_cur k1_est k1_ok].
+        repeat split; try assumption. rewrite A3. cbn [andb].
+        destruct cn; [|reflexivity]. cbn in E2. destruct (E2 eq_refl) as [E3 E4]. rewrite E4, A2, (Hest E3). reflexivity. }
+  unfold KS in *. rewrite Ht, fold_right_app.
+  assert (Hest : is_connected s = true -> k1_est (b1 (fold_right (fun e k => k10_ev k e) k0 (tr s))) = true).
+  { intros X. apply conn. exact X. }
+  destruct (G evs Hq Ho _ owed ok1 Hest) as (A1 & A2 & A3 & A4 & A5 & A6 & A7 & A8 & A9).
+  (* the state after the calls *)
+  assert (Hcs : has_call_disc evs = true -> sock s <> None -> cs s' = CsDisconnecting).
+  { intros X Y. rewrite X in Hc. rewrite Hc. destruct (sock s); [reflexivity|congruence]. }
+  assert (Hcs0 : has_call_disc evs = false -> cs s' = cs s).
+  { intros X. rewrite X in Hc. exact Hc. }
+  constructor; unfold is_connected, disc_state in *; ssimpl;
+    rewrite ?A1, ?A2, ?A4, ?A5, ?A6, ?A7, ?A8, ?Hsock; try assumption; try reflexivity.
+  - (* connected *)
+    intros X. destruct (has_call_disc evs) eqn:Ed.
+    + exfalso. rewrite Hc in X. destruct (sock s); discriminate.
+    + rewrite (Hcs0 eq_refl) in X. apply conn. exact X.
+  - (* disconnect() flag *)
+    intros X. rewrite A9. destruct (has_call_disc evs) eqn:Ed.
+    + rewrite orb_true_r. rewrite (Hcs eq_refl X). reflexivity.
+    + rewrite orb_false_r, disc by exact X. rewrite (Hcs0 eq_refl). reflexivity.
+  - (* queued DISCONNECT *)
+    rewrite Ha, app_assoc, has_disc_app. intros X Y. apply orb_true_iff in X as [X|X]; [|exact (Hdisc X)].
+    pose proof (qdisc X Y) as Z0. destruct (has_call_disc evs) eqn:Ed; [apply Hcs; [reflexivity|exact Y]|].
+    rewrite (Hcs0 eq_refl). exact Z0.
+  - (* wire *)
+    intros _ Y. rewrite Ha, app_assoc. apply wire_okb_app; [apply wire; [reflexivity|exact Y]|exact Hnc].
   - intros; discriminate.
 Qed.
